@@ -201,16 +201,20 @@ func randInt(r *hx.Rng) *big.Int {
 }
 
 var two256 = new(big.Int).Lsh(big.NewInt(1), 256)
-var two509 = new(big.Int).Lsh(big.NewInt(1), 509)
+var two510 = new(big.Int).Lsh(big.NewInt(1), 510) // C18_roundtrip is proved below this bound; 2^511-1 fails
 
 func main() {
 	a := hx.ParseArgs()
 	rng := hx.NewRng(a.Seed)
 	res := hx.NewResult("inputs: (1) boundary integers (0, +-1, 10^18+-1, 2^255, 2^256-1, 10^77.., 2^509-1, 2^512..) and the two wrong-constant witnesses, " +
 		"(2) random integers of 1..168 digits, around powers of two and ten, both signs, through BigIntToStr/bigIntToStr(p)/FormatDecimalForERC20/Rocket with decimals -1..30, " +
-		"(3) decimal strings sign? digits{0..80} [. digits{0..40}] [e|E|p|P sign? digits], (4) mutated/malformed strings, (5) wrapped Ethereum transactions. " +
+		"(1b) every string of length <= 2 (thorough: 3) over 019.-+eEpPIinf_x and blank, (3) decimal strings sign? digits{0..80} [. digits{0..40}] [e|E|p|P sign? digits], (4) mutated/malformed strings, (5) wrapped Ethereum transactions through eth_tx.ConvertTx and the contract executor's decodeContractData. " +
 		"non-trivial = distinct (function, input) that reaches big.Float rounding (accepted string with non-zero mantissa, or formatter input != 0)")
-	cs := hx.NewCases(a.Out, "From V.C18 Require Import Model Harness.", "case", "check", 400)
+	perShard := 400
+	if a.Tier == "thorough" {
+		perShard = 2500 // fewer, longer coqc processes (the driver starts all shards at once)
+	}
+	cs := hx.NewCases(a.Out, "From V.C18 Require Import Model Harness.", "case", "check", perShard)
 
 	unsupported := 0
 	altNearest, altPrec64, altProbes := 0, 0, 0
@@ -247,6 +251,12 @@ func main() {
 	}
 
 	intCase := func(n *big.Int) {
+		defer func() {
+			if p := recover(); p != nil {
+				res.Violate("C18/panic:BigIntToStr", fmt.Sprint(p), map[string]interface{}{"n": n.String()})
+				res.Count("panic", "R|"+n.String(), true)
+			}
+		}()
 		inRange := new(big.Int).Abs(n).Cmp(two256) < 0
 		// BigIntToStr and the round trip
 		s := utility.BigIntToStr(n)
@@ -257,14 +267,14 @@ func main() {
 		class := "roundtrip-ok"
 		if !ok {
 			class = "roundtrip-differs"
-			if new(big.Int).Abs(n).Cmp(two509) < 0 {
+			if new(big.Int).Abs(n).Cmp(two510) < 0 {
 				key := "C18/roundtrip"
 				if !inRange {
 					key = "C18/roundtrip:beyond-2^256"
 				}
 				res.Violate(key, fmt.Sprintf("StrToBigInt(BigIntToStr(n)) = %v (%v %v), n = %v", back, err, pan, n), map[string]interface{}{"n": n.String(), "str": s})
 			} else {
-				class = "roundtrip-differs-beyond-2^509(outside the claim)"
+				class = "roundtrip-differs-beyond-2^510(outside the claim)"
 			}
 		}
 		if inRange {
@@ -389,10 +399,10 @@ func main() {
 		new(big.Int).Sub(pow10(17), big.NewInt(1)), pow10(17), pow10(19),
 		p2(255, 0), p2(255, -1), p2(256, -1), p2(256, 0), new(big.Int).Neg(p2(256, -1)), p2(64, -1), p2(64, 0), p2(63, 0),
 		pow10(77), new(big.Int).Sub(pow10(78), big.NewInt(1)), pow10(78), mk("115792089237316195423570985008687907853269984665640564039457584007913129639935"),
-		p2(400, 1), p2(509, -1), p2(509, 0), p2(511, -1), p2(512, -1), p2(512, 1), p2(513, 1), p2(571, 3), p2(600, 1), p2(700, -1),
+		p2(400, 1), p2(509, -1), p2(509, 0), p2(510, -1), p2(510, 0), p2(511, -1), p2(512, -1), p2(512, 1), p2(513, 1), p2(571, 3), p2(600, 1), p2(700, -1),
 		// wrong-constant witnesses (see coq/C18/Props.v C18_needs_away / C18_needs_prec): these round-trip only
 		// because the code rounds away from zero at 512 bits
-		mk(witnessNearest), mk(witnessPrec64), mk(witnessPrec256),
+		mk(witnessNearest), mk(witnessPrec64), mk(witnessPrec256), mk(witnessPrec257),
 	}
 	for _, n := range boundary {
 		intCase(n)
@@ -404,6 +414,32 @@ func main() {
 		"0." + strings.Repeat("9", 27), "0." + strings.Repeat("9", 28), "0." + strings.Repeat("3", 60), "0." + strings.Repeat("9", 200), "1." + strings.Repeat("0", 300) + "1",
 		strings.Repeat("9", 200), "1e1000", "1e-1000", "7p-600", "3p300", "1e0000001", "1e1234567", "1e99999999999999999999", "\x00", "1\x00", "١", "1,5", "1.5.5", "e5", ".e5", "1.e5", "1e5.5", "1e5e5", "1ee5", "1e+-5", "1pp3"} {
 		parseCase(s, 18, -1, nil)
+	}
+
+	// ---- (1b) exhaustive small scope: every string of length <= 2 (quick) / <= 3 (thorough) over the
+	// characters the grammar distinguishes, compared with the model by value or error class ----
+	{
+		alphabet := []byte("019.-+eEpPIinf_x ")
+		maxLen := 2
+		if a.Tier == "thorough" {
+			maxLen = 3
+		}
+		var gen func(prefix []byte)
+		gen = func(prefix []byte) {
+			if len(prefix) > 0 {
+				parseCase(string(prefix), 18, -1, nil)
+			}
+			if len(prefix) == maxLen {
+				return
+			}
+			for _, c := range alphabet {
+				gen(append(append([]byte{}, prefix...), c))
+			}
+		}
+		gen(nil)
+		for _, s := range []string{"Inf", "inf", "+Inf", "-Inf", "+inf", "-inf", "1e9", "1p9", ".1e1", "1.e1", "-.1", "+.1", "0.1", "1.0"} {
+			parseCase(s, 18, -1, nil)
+		}
 	}
 
 	// ---- (2) random integers ----
@@ -545,6 +581,17 @@ func main() {
 		wrapped(v)
 	}
 
+	// strings outside the property's grammar that StrToBigInt nevertheless accepts (reported as a note, not a violation)
+	{
+		r1, e1, _ := safeParse("Inf", 18)
+		r2, e2, _ := safeParse("1e700000000", 18)
+		r3, e3, _ := safeParse("1e10000000", 18)
+		bl := -1
+		if r3 != nil {
+			bl = r3.BitLen()
+		}
+		res.Note(fmt.Sprintf("outside the property's grammar: StrToBigInt(\"Inf\") = %v (err %v); StrToBigInt(\"1e700000000\") = %v (err %v; overflows to +Inf, Float.Int leaves 0); StrToBigInt(\"1e10000000\") is a %d-bit integer (err %v) - an 11-character exponent string such as 1e646000000 yields a 2^31-bit (256 MB) integer", r1, e1, r2, e2, bl, e3))
+	}
 	res.Note(fmt.Sprintf("mutation probe on the implementation side: of %d non-zero in-range integers generated, %d would not round-trip with ToNearestEven at 512 bits and %d would not with AwayFromZero at 64 bits", altProbes, altNearest, altPrec64))
 	res.Note(fmt.Sprintf("%d mutated strings skipped because their exponent lies outside the modelled range", unsupported))
 	cs.Close()
@@ -563,3 +610,4 @@ func trunc(s string) string {
 const witnessNearest = "56811621293817351934785017273554155345847226138550693813110463157238241372704"
 const witnessPrec64 = "1180591620717411303425"
 const witnessPrec256 = "78863480712177860079531696335941234736299262810856364614764790490810452493866"
+const witnessPrec257 = "115792089237316195423570985008687907853269984665640564039457584004966757132588" // Props.v C18_min_precision
